@@ -2265,3 +2265,39 @@ mutant("c14-ping-skipped-for-active-clients", "C14", "C14-D5", "engine.io/server
 		}
 
 		ping, err := parser.NewPacket(parser.PacketTypePing, false, nil)""")
+
+# round 4 C18
+mutant("c18-handler-set-read-on-the-new-goroutine", "C18", "C18-D9", "namespace.go",
+       """	handlers := n.eventHandlers.getAll(eventName)
+
+	go func() {
+		for _, handler := range handlers {""",
+       """	go func() {
+		for _, handler := range n.eventHandlers.getAll(eventName) {""")
+
+# round 4 C15 / C17
+mutant("c15-timeout-drops-volatile", "C15", "C15-D7", "emitter.go",
+       """	e.timeout = timeout
+	return e""",
+       """	return Emitter{socket: e.socket, timeout: timeout}""")
+mutant("c17-last-session-memo-shared-by-servers", "C17", "C17-D6", "engine.io/store.go",
+       """func (s *socketStore) get(sid string) (socket *serverSocket, ok bool) {
+	s.mu.RLock()
+	defer s.mu.RUnlock()
+	socket, ok = s.sockets[sid]
+	return
+}""",
+       """var lastSession *serverSocket
+
+func (s *socketStore) get(sid string) (socket *serverSocket, ok bool) {
+	s.mu.RLock()
+	defer s.mu.RUnlock()
+	if lastSession != nil && lastSession.id == sid {
+		return lastSession, true
+	}
+	socket, ok = s.sockets[sid]
+	if ok {
+		lastSession = socket
+	}
+	return
+}""")
